@@ -199,6 +199,24 @@ func c12cBody(sc c12cScn, res *string) func(x *sched.Exec) {
 						x.Fail("C12|conc|histogram-count-differs-from-measurements|"+sc.kind, "%s collection %d: point %s has count %d, its sum %d is made of %d measurements", reader, ci, id, p.count, p.sum, n)
 					}
 				}
+				// a set that keeps its identity in a collection holds ALL its measurements of that epoch:
+				// none of them may sit in the overflow point of the same collection
+				own := map[string]bool{}
+				for _, p := range pts {
+					if !p.overflow {
+						own[p.set] = true
+					}
+				}
+				for _, p := range pts {
+					if !p.overflow || p.count == -2 {
+						continue
+					}
+					for d, pw := p.sum, int64(1); d > 0; d, pw = d/3, pw*3 {
+						if d%3 == 1 && own[owner[pw]] {
+							x.Fail("C12|conc|measurement-in-overflow-although-its-set-keeps-identity|"+sc.kind, "%s collection %d: measurement %d of set %q is filed under the overflow set while %q has a point of its own in the same collection: %v", reader, ci, pw, owner[pw], owner[pw], pts)
+						}
+					}
+				}
 				if len(pts) > sc.limit {
 					x.Fail("C12|conc|more-attribute-sets-than-the-limit|"+sc.kind, "limit %d: %s collection %d reports %d attribute sets: %v", sc.limit, reader, ci, len(pts), pts)
 				}
@@ -237,6 +255,10 @@ func c12cJobs(thorough bool) []c12cJob {
 		{"K5-gauge-L3-two-new-sets", "gauge", 3, []string{a}, [][]string{{b}, {c}}},
 		{"K6-fupdown-L2-three-threads", "fupdown", 2, nil, [][]string{{a}, {b}, {c}}},
 		{"K7-counter-L4-three-new-sets", "counter", 4, []string{a}, [][]string{{b}, {c}, {d}}},
+		{"K8-counter-L3-same-new-set-twice", "counter", 3, []string{a}, [][]string{{b}, {b}}},
+		{"K9-histogram-L3-record-vs-delta-collect", "histogram", 3, []string{a}, [][]string{{a}, {b}, {"D"}}},
+		{"K10-expo-L3-record-vs-delta-collect", "expo", 3, []string{a}, [][]string{{a, b}, {"D"}}},
+		{"K11-fupdown-L3-same-new-set-twice-collect", "fupdown", 3, []string{a}, [][]string{{b}, {b}, {"D"}}},
 	}
 	p := 3
 	if thorough {
